@@ -36,11 +36,25 @@ class QuotientWorld(Scenario):
                 quo = rng.below(size)
             uni.append((quo << r) | rng.choice(rems))
         uni = sorted(set(uni))
-        return {
+        cfg = {
             "q": q, "auto_expand": rng.chance(1, 2), "mlf": rng.choice((0.5, 0.7, 0.85, 0.85, 1.0)),
             "uni": uni, "keyed": rng.chance(1, 3), "steps": rng.between(5, self.max_steps),
             "avoid_full": rng.chance(1, 2),
         }
+        if rng.chance(1, 5):
+            # full-table pressure: a small table that cannot grow and a universe of 2-4x its size, so that the run
+            # spends its time around 100 % load (whole-table clusters, removal without any empty slot)
+            q = rng.choice((3, 3, 4))
+            r = 32 - q
+            size = 1 << q
+            uni = set()
+            few = rng.chance(1, 2)  # few distinct quotients -> one cluster wrapping the whole table
+            quos = [rng.below(size) for _ in range(rng.between(1, 3))] if few else list(range(size))
+            while len(uni) < size * rng.between(2, 4):
+                uni.add((rng.choice(quos) << r) | rng.below(64))
+            cfg.update({"q": q, "auto_expand": False, "avoid_full": False, "uni": sorted(uni), "pressure": True,
+                        "steps": self.max_steps})
+        return cfg
 
     def gen_step(self, rng):
         cfg = self.cfg
@@ -60,6 +74,12 @@ class QuotientWorld(Scenario):
             else:
                 i = rng.below(U)
             return {"op": "remove", "i": i, "api": api}
+        if cfg.get("pressure") and r >= 80 and rng.chance(4, 5):
+            present2 = sorted(self.model)
+            if len(present2) >= self.f.size - 1 and present2:
+                h = rng.choice(present2)
+                return {"op": "remove", "i": cfg["uni"].index(h), "api": api}
+            return {"op": "add", "i": rng.below(U), "api": api}
         if r < 87:
             return {"op": "resize", "q": rng.between(3, min(Q_MAX, self.f.quotient + 2))}
         if r < 90:
